@@ -9,7 +9,7 @@ One run of `./check Cxx --tier T`:
 import json, os, random, re, subprocess, sys, time, hashlib, tempfile, shutil
 from concurrent.futures import ThreadPoolExecutor
 
-V = '/verif'
+V = os.path.dirname(os.path.dirname(os.path.abspath(__file__)))
 B = V + '/.build'
 LEAN = V + '/lean'
 ZN_REPO = os.environ.get('ZN_REPO', '/repo')
